@@ -473,6 +473,9 @@ class SK(object):
                 b = int(b)
             if op is o.truediv and isinstance(a, (int, Fraction)) and isinstance(b, (int, Fraction)) and not isinstance(a, bool) and not isinstance(b, bool) and b != 0:
                 return Fraction(a) / Fraction(b)
+        if op in (o.truediv, o.floordiv, o.mod) and isinstance(b, Gap) and b.mag == 0:
+            # the difference of two equal knots: a division by it is a division by zero for every knot vector of this order type
+            raise Raised('ZeroDivisionError', 'division by the difference of two equal knots', node)
         if isinstance(a, Ord) and isinstance(b, Ord) and op is o.sub:
             return Gap(a.rank - b.rank)
         if isinstance(a, Gap) and isinstance(b, (int, float)) and not isinstance(b, bool) and op in (o.truediv, o.mul) and b != 0:
